@@ -15,7 +15,13 @@ type c12Diag struct {
 	sum, det string
 	subj     *SourceRange
 	ctxr     *SourceRange
+	subjName string // what subj.Filename was when the finder handed the diagnostic over
 }
+
+// c12Static: a diagnostic value a finder keeps and reports for every package it analyses (the
+// same *SourceRange each time).
+var c12StaticRange = &SourceRange{Filename: "static.tf", Start: SourcePos{Line: 9, Column: 9, Byte: 9}}
+var c12Static = c12Diag{sev: DiagWarning, sum: "static", det: "d", subj: c12StaticRange, subjName: "static.tf"}
 
 func (d c12Diag) Severity() DiagSeverity { return d.sev }
 func (d c12Diag) Description() DiagDescription {
@@ -59,6 +65,9 @@ func (f c12Finder) FindDependencies(fsys fs.FS, subPath string, deps *Dependenci
 		out = append(out, d)
 		c12Given = append(c12Given, d)
 	}
+	if verif.Param("static", 0) == 1 {
+		out = append(out, c12Static)
+	}
 	if verif.Bool("badrel") {
 		// a relative dependency that climbs out of the package: the builder itself has to report it
 		l, _ := sourceaddrs.ParseLocalSource("../../up")
@@ -89,6 +98,7 @@ func HarnessC12Build() {
 	c12ManifestSeenEarly = false
 	c12Given = nil
 	c12BadRel = false
+	c12StaticRange.Filename = "static.tf"
 	wCrashPoint = c12CrashPoint
 	b, err := NewBuilder(wTarget, wFetcher{}, wRegistry{})
 	verif.Assume(err == nil)
@@ -150,6 +160,22 @@ func HarnessC12Build() {
 		}
 		verif.Assert("C12-finder-diagnostic-reaches-the-tracer", seen)
 	}
+	// each delivered copy of the static diagnostic names the file inside the package it was raised for
+	// (reading one copy must not change what another one says)
+	for pass := 0; pass < 2; pass++ {
+		for _, d := range diags {
+			w, ok := d.(diagnosticInSourcePackage)
+			if !ok {
+				continue
+			}
+			if cd, ok := w.wrapped.(c12Diag); ok && cd.sum == "static" {
+				verif.Reach("static-diagnostic-delivered")
+				src := d.Source()
+				verif.Assert("C12-diagnostic-file-name-is-inside-the-analysed-package", src.Subject != nil && src.Subject.Filename == w.pkg.SourceAddr(cd.subjName).String())
+			}
+		}
+	}
+	verif.Assert("C12-finder-owned-diagnostic-is-not-modified", c12StaticRange.Filename == "static.tf")
 	if faulted || givenErr || c12BadRel {
 		verif.Reach("failed-build")
 		verif.Assert("C12-failure-is-reported-as-error-diagnostic", diags.HasErrors())
